@@ -241,6 +241,12 @@ def events(f, rename=lambda s: s, significant=None, rewrite=None, pname=None, gu
     for b in order:
         blk = f.blocks[b]
         for i, st in enumerate(blk["stmts"]):
+            if st["k"] == "assign" and st["place"]["local"] == 0 and not mir.place_has_deref(st["place"]):
+                # the returned value, at the place where it is produced (a merged `phi` at the
+                # return terminator would hide which value each path returns)
+                sub = ".".join(mir.place_fields(st["place"]))
+                out.append(("return", ("%s := " % sub if sub else "") + canon(f.deep_simplify(f.rvalue_expr(st["rv"], b, i)), rename, 1, rewrite, pname)))
+                continue
             if st["k"] == "assign" and mir.place_has_deref(st["place"]):
                 tgt = ".".join(mir.place_fields(st["place"])) or "*"
                 out.append(("store", "%s := %s" % (tgt, canon(f.deep_simplify(f.rvalue_expr(st["rv"], b, i)), rename, 1, rewrite, pname))))
@@ -248,6 +254,11 @@ def events(f, rename=lambda s: s, significant=None, rewrite=None, pname=None, gu
         if t["k"] == "call":
             path = mir.callee_path(t) or "indirect"
             short = mir.callee_short(t) or path
+            if t["dest"]["local"] == 0 and not t["dest"]["proj"] and path not in NOISE:
+                out.append(("return", canon(f.deep_simplify(f.call_expr(b)), rename, 1, rewrite, pname)))
+                returned = True
+            else:
+                returned = False
             if path in AWAIT_SCAFFOLD or path in NOISE or any(path.startswith(p) for p in ("core::fmt::", "core::panicking::")):
                 continue
             name = rename(short if mir.is_local_callee(t) else path)
@@ -256,12 +267,18 @@ def events(f, rename=lambda s: s, significant=None, rewrite=None, pname=None, gu
             if significant is not None and not significant(name, t):
                 continue
             args = [canon(f.deep_simplify(a), rename, 1, rewrite, pname) for a in f.call_args(b)]
-            out.append(("call", "%s(%s)" % (name, ", ".join(args))))
+            if returned:
+                # keep the order call -> return
+                r = out.pop()
+                out.append(("call", "%s(%s)" % (name, ", ".join(args))))
+                out.append(r)
+            else:
+                out.append(("call", "%s(%s)" % (name, ", ".join(args))))
         elif t["k"] == "switch" and guards and f._switch_const(t, b) is None:
             n = len(blk["stmts"])
             out.append(("guard", canon(f.deep_simplify(f.operand_expr(t["discr"], b, n)), rename, 1, rewrite, pname)))
         elif t["k"] == "return":
-            out.append(("return", canon(f.deep_simplify(f.return_expr(b)), rename, 1, rewrite, pname)))
+            pass  # return values are recorded where `_0` is assigned
         elif t["k"] == "yield":
             out.append(("yield", ""))
     return out
